@@ -24,6 +24,6 @@ META = {
 
 def main(argv):
     c = vcheck.Check("C11", argv)
-    mirrorlib.mirror_check(c, "C11", ["c11sm", "c11g", "c11cur", "c11nil"], "C11 view streams",
+    mirrorlib.mirror_check(c, ["C11", "C11Streams"], ["c11sm", "c11g", "c11cur", "c11nil"], "C11 view streams",
                            quick=(30, 40), thorough=(400, 50), extra=["-consumers", "-crashes"])
     c.finish()
